@@ -5,6 +5,7 @@ and 0x61xx handling keep running.
 Fault kinds per exchange (fault_fn(index, apdu)): "send_err" (BrokenPipeError),
 "recv_eof" (peer closed: recv returns b""), ("sw", w), plus connect refusal
 through `refuse` (next N connects fail)."""
+import socket as _real_socket
 import struct
 
 from sim.kernel import check_foreign as _check_foreign
@@ -26,6 +27,7 @@ class TcpLink:
         self.crash_check = crash_check
         self.xchg_yield = None
         self.wait = None
+        self.latency_fn = None        # (apdu) -> virtual seconds before the answer is readable
         self.index = 0
         self.refuse = 0
         self.transport = []
@@ -56,6 +58,9 @@ class FakeSock:
         self.rbuf = bytearray()
         self.connected = False
         self.eof = False
+        self.ready_at = 0.0
+        # a socket is born with the process-wide default time-out (socket.setdefaulttimeout)
+        self.timeout = _real_socket.getdefaulttimeout()
 
     def connect(self, addr):
         link = self.link
@@ -122,10 +127,22 @@ class FakeSock:
             return
         link.tlog("xchg", idx, apdu, resp, "%04x" % sw)
         self.rbuf += struct.pack(">I", len(resp)) + bytes(resp) + struct.pack(">H", sw)
+        if link.latency_fn is not None:
+            self.ready_at = link.clock.now + link.latency_fn(apdu)
 
     def recv(self, n):
         link = self.link
         link._seam()
+        if self.rbuf and self.ready_at > link.clock.now:
+            need = self.ready_at - link.clock.now
+            if self.timeout is not None and need > self.timeout:
+                # the answer comes later than this socket is willing to wait: it stays in flight
+                # (and will be what the next read returns)
+                (link.wait or link.clock.sleep)(self.timeout)
+                link.stats.fault("socket_timeout")
+                link.tlog("recv-timeout", self.timeout)
+                raise _real_socket.timeout("timed out")
+            (link.wait or link.clock.sleep)(need)
         if not self.rbuf:
             return b""
         out = bytes(self.rbuf[:n])
@@ -144,7 +161,10 @@ class FakeSock:
             link.device.on_close()
 
     def settimeout(self, t):
-        pass
+        self.timeout = t
+
+    def gettimeout(self):
+        return self.timeout
 
 
 class SocketShim:
@@ -154,6 +174,7 @@ class SocketShim:
     SHUT_WR = 1
     SHUT_RDWR = 2
     error = OSError
+    timeout = _real_socket.timeout
 
     @staticmethod
     def socket(*a):
